@@ -28,6 +28,8 @@ func (v *Value) MarshalNBT(w io.Writer) (err error) {
 		length := len(v.list)
 		if length > 0 {
 			elemType = v.list[0].tag
+		} else if len(v.data) == 1 {
+			elemType = v.data[0] // an empty list that was decoded keeps its element type
 		}
 
 		_, err = w.Write([]byte{elemType})
